@@ -1,6 +1,7 @@
 package verifsim
 
 import (
+	"github.com/avos-io/goat/gen/goatorepo"
 	"bytes"
 	"context"
 	"errors"
@@ -891,8 +892,14 @@ func execC14(e *Env, pp any) {
 	failBody := map[int]bool{}   // calls whose next message write fails once (the connection stays usable)
 	failClose := map[int]bool{}  // calls whose half-close write fails once
 	wireCall := map[uint64]int{} // wire id -> call, learnt from the open envelope
+	expiredOnArrival := map[int]string{} // call -> grpc-timeout value its first envelope carries on the wire
 	cout.WriteFault = func(n int, r *Rpc) error {
 		if c := callOfEnvelope(r); c != 0 {
+			if _, seen := wireCall[r.GetId()]; !seen {
+				if v := expiredOnArrival[c]; v != "" && r.GetHeader() != nil {
+					r.Header.Headers = append([]*goatorepo.KeyValue{{Key: "grpc-timeout", Value: v}}, r.Header.Headers...)
+				}
+			}
 			wireCall[r.GetId()] = c
 		}
 		if r.GetBody() == nil && r.GetTrailer() == nil && r.GetReset_() == nil {
@@ -1024,7 +1031,10 @@ func execC14(e *Env, pp any) {
 			}
 			e.Note("outcome.ctx-done-before-call")
 		case 7: // the request arrives with a timeout that has already run out: the RPC still exists on the server
-			c.ReqMD = map[string][]string{"grpc-timeout": {[]string{"0m", "0n", "0S", "1n"}[g.IntN(4)]}}
+			// (goat's own client never sends a timeout below 1m and, since F54, drops a
+			// grpc-timeout found in user metadata: the value is put on the envelope in
+			// the transport, as a foreign client or a slow network would present it)
+			expiredOnArrival[id] = []string{"0m", "0n", "0S", "1n"}[g.IntN(4)]
 			e.Note("outcome.expired-on-arrival")
 		case 8: // one message write fails in the transport while the handler is still waiting for the caller (the connection stays usable)
 			if c.Kind == KBidi || c.Kind == KCStream {
@@ -1058,6 +1068,7 @@ func execC14(e *Env, pp any) {
 	}
 	const prop = "C14"
 	baseline := -1
+	baseCliCtx, baseSrvCtx := -1, 0
 	sample := func(when string) bool {
 		// quiescent and nothing in flight: registries empty, goroutines at baseline
 		reg := goat.VerifClientRegistered(cc)
@@ -1071,6 +1082,32 @@ func execC14(e *Env, pp any) {
 				return false
 			}
 		}
+		// contexts: every per-call context and hook registered on the connection's
+		// contexts is gone again (state bounded; what a context pins is not collected)
+		cliCtx := ctxDescendants(goat.VerifClientCtx(cc))
+		srvCtx := 0
+		for _, sr := range net.Serves {
+			if d := ctxDescendants(sr.Ctx); d >= 0 {
+				srvCtx += d
+			}
+		}
+		for _, h := range e.W.TrackedObjects("server.handler") {
+			if d := ctxDescendants(goat.VerifServerCtx(h)); d >= 0 {
+				srvCtx += d
+			}
+		}
+		if baseline >= 0 && cliCtx >= 0 && baseCliCtx >= 0 && cliCtx > baseCliCtx {
+			e.Violate(prop, "context-leak", "client.mux", "%s: %d contexts / hooks registered under the client connection's context with no RPC in flight, idle baseline %d", when, cliCtx, baseCliCtx)
+			return false
+		}
+		if baseline >= 0 && srvCtx > baseSrvCtx {
+			e.Violate(prop, "context-leak", "server.handler", "%s: %d contexts registered under the server connection's contexts with no RPC in flight, idle baseline %d", when, srvCtx, baseSrvCtx)
+			return false
+		}
+		if baseline < 0 {
+			baseCliCtx, baseSrvCtx = cliCtx, srvCtx
+		}
+		e.Notes["ctx.children.sampled"]++
 		alive := 0
 		var names []string
 		for _, v := range e.W.Snapshot() {
